@@ -20,7 +20,8 @@ RULE = ('targets = random TT of exact rank rho (continuous cores), d=2..6, '
     '(shape, rho, start rank, dr, nswp) with rho >= 2 or rank growth')
 REQUIRED = {'exact-fixed-rank': 60, 'exact-growing': 60, 'cache-same-cores': 100,
     'cache-counters': 100, 'cache-contents': 100, 'info-r': 200,
-    'info-e_vld': 100, 'info-e': 200, 'shape': 200}
+    'info-e_vld': 100, 'info-e': 200, 'shape': 200,
+    'exact-when-interrupted': 100}
 ASSUMPTIONS = ['objective = dense table lookup, so values do not depend on '
     'the batch they are requested in (needed for the bitwise cache claim)',
     'targets with sigma_rho/sigma_1 < 1e-5 in an unfolding are not judged '
@@ -205,6 +206,66 @@ def run_case(case, ctx):
             lambda: f'max|cross - target| = {err:.3e} for an exact rank-{rho} '
             f'target (max|T| = {np.abs(T).max():.3e})', shape=n, start=r0,
             dr=[dr_min, dr_max], nswp=nswp, ranks=rr, conditioning=cond)
+
+    # (1b) interrupted after the working ranks have been rho for a complete
+    # sweep (fixed-rank mode, sweep >= 2): whatever the request at which the
+    # objective gives up or the budget runs out, the returned tensor is still
+    # the target (left part new, right part old, exact intersection in between)
+    if mode == 'fixed' and cond >= 1e-5 and len(plain.sweeps) >= 2 and \
+            len(plain.batches) >= 4 * d and 'e' not in kw:
+        sizes = [len(b) for b in plain.batches]
+        cum = np.cumsum(sizes)
+        ks = {3 * d + 1, 2 * d + 1, int(rng.integers(2 * d + 1, 4 * d + 1))}
+        for k in sorted(ks):
+            for how in ('none', 'budget'):
+                kwi = dict(kw)
+                if how == 'none':
+                    run = crossh.execute(crossh.Run(T, none_at=k), Y0, **kwi)
+                else:
+                    kwi['m'] = int(cum[k - 1] - 1)
+                    run = crossh.execute(crossh.Run(T), Y0, **kwi)
+                if run.error is not None:
+                    if isinstance(run.error, crossh.Abort):
+                        continue
+                    raise run.error
+                why = ref.wellformed(run.result, n)
+                if not ctx.check('shape', why is None, f'interrupted run '
+                        f'({how} at request {k}): malformed result: {why}'):
+                    continue
+                if run.info['stop'] not in ('func', 'm') or \
+                        len(run.batches) != k - 1:
+                    ctx.event('interruption-not-at-planned-request')
+                    continue
+                err = float(np.abs(np.asarray(ref.dense_ld(run.result),
+                    dtype=float) - T).max())
+                ctx.check('exact-when-interrupted',
+                    err <= 1e-8 * float(np.abs(T).max()),
+                    lambda: f'{how} interruption at request {k} (sweep 2, '
+                    f'd = {d}; working ranks = target ranks {rt} since the '
+                    f'start): max|cross - target| = {err:.3e} '
+                    f'(max|T| = {np.abs(T).max():.3e})', shape=n,
+                    conditioning=cond)
+                ctx.event('interrupted-at-' + ('first-backward-request'
+                    if k == 3 * d + 1 else 'first-forward-request'
+                    if k == 2 * d + 1 else 'other-request'))
+
+    # (1c) nswp = 0: only the pre-iteration, no evaluation; info and cache
+    # must still describe the returned tensor
+    kw0 = {k: v for k, v in kw.items() if k not in ('nswp', 'e')}
+    cache0 = {}
+    run0 = crossh.execute(crossh.Run(T), Y0, nswp=0, cache=cache0, **kw0)
+    if run0.error is not None:
+        if not isinstance(run0.error, crossh.Abort):
+            raise run0.error
+    else:
+        why = ref.wellformed(run0.result, n)
+        if ctx.check('shape', why is None, f'nswp=0 run: malformed: {why}'):
+            judge_info(ctx, run0, I_vld, y_vld)
+            rows0 = {tuple(int(x) for x in r) for b in run0.batches for r in b}
+            ctx.check('cache-contents', set(cache0.keys()) == rows0 and all(
+                cache0[k] == float(T[k]) for k in rows0), 'nswp=0 run: cache '
+                f'holds {len(cache0)} keys, {len(rows0)} indices evaluated')
+            ctx.event('nswp-zero-run')
 
     # (2) cache differential
     ip, ic = plain.info, cached.info
